@@ -264,7 +264,9 @@ def check_kernel(arch, isa, ris, flags=False):
             elif e in got:
                 if verdict == "forbidden" and e not in raw:
                     probs.append(("spurious-memdep", "edge %s -> %s (weight %s) although the "
-                                  "addresses provably differ" % (ris[i].text, ris[j].text, got[e])))
+                                  "addresses provably differ (other displacement, or a register that is "
+                                  "no accounted copy of the store's)" % (ris[i].text, ris[j].text,
+                                                                           got[e])))
                 elif not any(abs(got[e] - w) < 1e-9 for w in allowed):
                     probs.append(("weight", "edge %s -> %s has weight %s, expected one of %s"
                                   % (ris[i].text, ris[j].text, got[e], sorted(allowed))))
